@@ -25,6 +25,7 @@ type realObs struct {
 	udpObs
 	Attempts int    `json:"attempts"`
 	Skipped  string `json:"skipped,omitempty"`
+	SessionClosedEarly bool `json:"session_closed_early,omitempty"`
 }
 
 // ---- mode "udpreal" ---------------------------------------------------------------------------
@@ -241,6 +242,19 @@ func runVConnCase(c *caseIn, out *caseOut) {
 	spin := make(chan string, 2)
 	t := newStreamFake("tunnel", c.Tunnel, log, spin)
 	t.onEnd = pc.release // the socket stays busy until the relay has consumed the whole tunnel stream
+	if c.FeedAgeS > 0 {
+		// a long one-way feed in VIRTUAL time: before every tunnel Read after the first, FeedAgeS seconds pass without
+		// any datagram from the local application, and the adapter's cleanup loop runs once (no real waiting)
+		pc.mu.Lock()
+		pc.open = true
+		pc.mu.Unlock()
+		t.beforeRead = func(idx int) {
+			if idx >= 1 {
+				vc.VerifAge(time.Duration(c.FeedAgeS) * time.Second)
+				ad.VerifCleanup()
+			}
+		}
+	}
 	done := make(chan *iocopy.Result, 1)
 	go func() { done <- iocopy.UDP(vc, t, &iocopy.Options{LogPrefix: "verif"}) }()
 	o := &ro.udpObs
@@ -295,5 +309,6 @@ loop:
 		o.SendErr, o.RecvErr = errClass(res.SendError), errClassOf(res.ReceiveError, c.Tunnel.End)
 	}
 	o.Events = log.snapshot()
+	ro.SessionClosedEarly = c.FeedAgeS > 0 && len(got) < len(want)
 	checkDelivered(out, "vconn", o, got, want, c.Tunnel.End, tail)
 }
